@@ -19,7 +19,11 @@ META = {
             "terminates (fuel = #children cells), keeps the heap invariant, leaves in the forced handle a LEAF denoting the value of the handle's "
             "original expression, and keeps the denotation of every other node; lazy_eq_eager and same_value_same_solid (two histories / two "
             "constructions, unrelated oracle answers); sub_sub_is_sub_union, nested_eq_flat (any arity/position), transform_chain (any length), "
-            "shared_under_transforms; stack_refines_bigstep + stack_force_denotes (the frame-for-frame explicit stack computes the same heap and "
+            "shared_under_transforms; status_same (the carrier lifted to solid-or-error-code with the forwarding rules of Boolean3::Result/"
+            "Compose/Transform: error-ness and the solid are history independent for the pinned first-error-wins rule), status_code_refuted "
+            "(WHICH code is reported is not: witness replayed on the real code), status_exact_if_min_wins; rc_force_denotes + uniq_rc_spec "
+            "(canCollapse decided from owner counts derived from the heap and the live handles instead of an oracle); "
+            "compose_is_union_voxels (box oracle computed from the cells, hypothesis discharged); stack_refines_bigstep + stack_force_denotes (the frame-for-frame explicit stack computes the same heap and "
             "result); batch_heap_order_irrelevant and any_combination_tree (any pop order / completion order); "
             "compose_is_union_when_disjoint under the explicit hypothesis 'boxes that do not overlap bound disjoint solids'; the laws are "
             "instantiated by lattice cells with translations, quarter turns and mirrors. Tie: the same DAG+history runs on /repo's library "
@@ -29,8 +33,8 @@ META = {
             "evaluation) must agree; lazy / eager / interleaved / flattened / (a-b)-c-rewritten builds must agree with each other.",
     "note": "force_denotes is proved for the big-step evaluator (which follows the explicit stack's order) and transported to the frame-for-frame "
             "stack machine by the proved refinement stack_refines_bigstep (same heap, same cache node; fuel for the stack loop is existential, "
-            "the big-step fuel bound is #cells); the correspondence run executes the stack machine. Not modelled: ExecutionContext/cancellation/progress (C15), error-Status short cuts, meshIDs, "
-            "refcount-driven destruction (HDrop only forgets the handle). Trusted: Coq kernel, extraction, the harness, Boolean3/Compose/"
+            "the big-step fuel bound is #cells); the correspondence run executes the stack machine. Not modelled: ExecutionContext/cancellation/progress (C15), meshIDs; destruction is 'unreachable from a live handle' "
+            "(what shared_ptr counting amounts to without cycles), used by uniq_rc and by the node-graph comparison. Trusted: Coq kernel, extraction, the harness, Boolean3/Compose/"
             "Impl::Transform each standing for one operation of the carrier (their geometry is C02/C17's subject), integer-lattice symmetries "
             "standing for general affine maps.",
 }
@@ -96,6 +100,8 @@ class Dag:
             x = self.vals[v]
             if x[0] == "L":
                 out.append((v, t, box_under(x[1], t)))
+            elif x[0] == "E":
+                pass
             elif x[0] == "B":
                 go(x[2], t); go(x[3], t)
             elif x[0] == "O":
@@ -105,6 +111,28 @@ class Dag:
                 go(x[2], tcomp(t, tr_of(x[1], x[3])))
         go(root, TID)
         return out
+
+    def err(self, root):
+        """Status code of value root: 0, or the code of an errored leaf of its expression (the main stream uses one code
+        only, so 'which one' does not matter)"""
+        seen = {}
+
+        def go(v):
+            if v in seen:
+                return seen[v]
+            x = self.vals[v]
+            if x[0] == "E":
+                r = x[2]
+            elif x[0] == "L":
+                r = 0
+            else:
+                deps = [x[2], x[3]] if x[0] == "B" else list(x[2]) if x[0] == "O" else [x[2]]
+                r = 0
+                for a in deps:
+                    r = r or go(a)
+            seen[v] = r
+            return r
+        return go(root)
 
     def bits(self, root, axes):
         """exact evaluation of value root on the product of the per-axis sample lists (1/64 units): python int bitmask,
@@ -137,6 +165,8 @@ class Dag:
             x = self.vals[v]
             if x[0] == "L":
                 r = boxmask(box_under(x[1], t))
+            elif x[0] == "E":
+                r = 0
             elif x[0] == "T":
                 r = go(x[2], tcomp(t, tr_of(x[1], x[3])))
             else:
@@ -197,7 +227,8 @@ def volume6(mask, axes2):
 
 def gen_dag(rng):
     """random construction in general position, or None"""
-    nleaf = rng.randint(2, 5)
+    chain = rng.random() < 0.3          # template: nested same-op levels under non-commuting transforms, all on temporaries
+    nleaf = rng.randint(4, 5) if chain else rng.randint(2, 5)
     fr = list(range(1, 32))
     rng.shuffle(fr)
     vals, depth = [], []
@@ -208,6 +239,12 @@ def gen_dag(rng):
         lo = tuple(64 * k[a] + f[a] for a in range(3))
         hi = tuple(64 * (k[a] + sz[a]) + f[3 + a] for a in range(3))
         vals.append(("L", (lo, hi))); depth.append(0)
+    if rng.random() < 0.12:
+        # an errored operand (a mesh with a NaN vertex: NonFiniteVertex = 1) somewhere in the expression; one code only,
+        # because WHICH of two different codes is reported depends on the history on the pinned tree (known finding)
+        for _ in range(rng.randint(1, 2)):
+            if nleaf >= 3:
+                vals[rng.randrange(2, nleaf)] = ("E", 1, 1)
     used = set()
     nops = rng.randint(3, 13)
 
@@ -240,6 +277,40 @@ def gen_dag(rng):
         used.add(a)
         return a
 
+    if chain:
+        # ((a o b).T1 o c).T2 o d [.T3 o e]: when the temporaries are dropped every level collapses into the root, and the
+        # transform handed to the grandchildren is the PRODUCT frame->transform * node->transform_, in that order; T1, T2
+        # alternate rotation / mirror with translation so that the factors do not commute
+        o = rng.choice([0, 1, 2])
+        kinds = [rng.choice(["TR", "TM"]), "TT"]
+        if rng.random() < 0.5:
+            kinds.reverse()
+        v = None
+        levels = rng.randint(3, 4)
+        nxt = 0
+        for lv in range(levels):
+            if v is None:
+                a, b = 0, 1; nxt = 2
+            else:
+                kind = kinds[(lv - 1) % 2]
+                if kind == "TT":
+                    p = tuple(rng.choice([-3, -2, -1, 1, 2, 3]) for _ in range(3))
+                elif kind == "TR":
+                    p = rng.choice([(0, 0, 1), (1, 0, 0), (0, 1, 0), (0, 0, 3), (1, 2, 0), (0, 1, 1)])
+                else:
+                    p = rng.choice([(-1, 1, 1), (1, -1, 1), (1, 1, -1)])
+                vals.append(("T", kind, v, p)); depth.append(depth[v] + 1)
+                used.add(v)
+                tv = len(vals) - 1
+                if nxt >= nleaf:
+                    break
+                a, b = tv, nxt; nxt += 1
+                if o != 1 and rng.random() < 0.5:
+                    a, b = b, a            # the collapsible child need not be the first operand of a commutative op
+            vals.append(("B", o, a, b)); depth.append(1 + max(depth[a], depth[b]))
+            used.add(a); used.add(b)
+            v = len(vals) - 1
+        nops = rng.randint(0, 5)
     for _ in range(nops):
         r = rng.random()
         o = rng.choice([0, 0, 1, 1, 2])
@@ -267,7 +338,7 @@ def gen_dag(rng):
         if depth[-1] > 6:
             return None
     # the root must be an operation that (transitively) uses most of what was built: combine unused op values
-    roots = [i for i in range(nleaf, len(vals)) if i not in used and vals[i][0] != "L"]
+    roots = [i for i in range(nleaf, len(vals)) if i not in used and vals[i][0] not in ("L", "E")]
     if not roots:
         return None
     while len(roots) > 1:
@@ -366,7 +437,9 @@ def emit(d, root, rng, mode):
 
     for pos, v in enumerate(order):
         x = d.vals[v]
-        if x[0] == "L":
+        if x[0] == "E":
+            ops.append(["E", str(x[1]), str(x[2])])
+        elif x[0] == "L":
             lo, hi = x[1]
             ops.append(["L"] + [str(c) for c in lo + hi])
         elif x[0] == "B":
@@ -388,7 +461,7 @@ def emit(d, root, rng, mode):
             if rng.random() < 0.2:
                 ops.append(["C", str(h(v))]); live[v].append(nh[0]); nh[0] += 1
             if rng.random() < 0.25:
-                cands = [w for w in live if live[w] and d.vals[w][0] != "L"]
+                cands = [w for w in live if live[w] and d.vals[w][0] not in ("L", "E")]
                 if cands:
                     force(rng.choice(cands))
         # drop operands after their last use
@@ -402,7 +475,7 @@ def emit(d, root, rng, mode):
                     live[a] = []
     force(root, 2 if mode != "mixed" else None)
     if mode == "mixed":
-        cands = [w for w in live if live[w] and d.vals[w][0] != "L"]
+        cands = [w for w in live if live[w] and d.vals[w][0] not in ("L", "E")]
         for w in rng.sample(cands, min(2, len(cands))):
             force(w)
     return ops, forced
@@ -425,25 +498,38 @@ def build_cases(rng, ndags):
             continue
         root = len(d.vals) - 1
         inst = d.instances(root)
-        cells = [(lo[a] // 64, -((-hi[a]) // 64)) for (_, _, (lo, hi)) in inst for a in range(3)]
+        # the sampling lattice must contain every value that any history may force (intermediates sit where they were
+        # built, before the transforms applied to them later)
+        allinst = []
+        for v in range(len(d.vals)):
+            allinst += d.instances(v)
         g = []
         for a in range(3):
-            los = [(lo[a] - 32) // 64 for (_, _, (lo, hi)) in inst]
-            his = [(hi[a] - 32) // 64 + 1 for (_, _, (lo, hi)) in inst]
+            los = [(lo[a] - 32) // 64 for (_, _, (lo, hi)) in allinst]
+            his = [(hi[a] - 32) // 64 + 1 for (_, _, (lo, hi)) in allinst]
             g += [min(los) - 1, max(his) + 1]
         axes = tuple([64 * i + 32 for i in range(g[2 * a], g[2 * a + 1])] for a in range(3))
         ncell = len(axes[0]) * len(axes[1]) * len(axes[2])
-        # compressed grid for the exact volume
-        axes2, mids = [], []
-        for a in range(3):
-            cs = sorted(set(c for (_, _, (lo, hi)) in inst for c in (lo[a], hi[a])))
-            m2 = [cs[i] + cs[i + 1] for i in range(len(cs) - 1)]           # doubled midpoints
-            axes2.append(([x for x in m2], [cs[i + 1] - cs[i] for i in range(len(cs) - 1)]))
-            mids.append(m2)
 
         def expect(dd, v):
+            e = dd.err(v)
+            if e:
+                return hex_of(0, ncell), 0, e
+            return expect_ok(dd, v) + (0,)
+
+        def expect_ok(dd, v):
             b = dd.bits(v, axes)
-            # compressed evaluation with doubled coordinates: scale boxes by 2 via doubled samples
+            # exact volume on the grid compressed to the face coordinates of v's own leaf instances (doubled coordinates,
+            # so that the cell midpoints used as samples are integers)
+            vi = dd.instances(v)
+            axes2, mids = [], []
+            for a in range(3):
+                cs = sorted(set(c for (_, _, (lo, hi)) in vi for c in (lo[a], hi[a])))
+                m2 = [cs[i] + cs[i + 1] for i in range(len(cs) - 1)]
+                axes2.append((m2, [cs[i + 1] - cs[i] for i in range(len(cs) - 1)]))
+                mids.append(m2)
+            if any(len(m) == 0 for m in mids):
+                return hex_of(b, ncell), 0
             dd2 = Dag([("L", (tuple(2 * c for c in x[1][0]), tuple(2 * c for c in x[1][1]))) if x[0] == "L" else x for x in dd.vals])
             dd2_tr = Dag([(x[0], x[1], x[2], tuple(2 * c for c in x[3])) if (x[0] == "T" and x[1] == "TT") else x for x in dd2.vals])
             bv = dd2_tr.bits(v, tuple(mids))
@@ -509,7 +595,8 @@ def run(cx):
         "the bounding-box oracle is sound (boxes that do not overlap bound disjoint solids): explicit hypothesis of force_denotes and compose_is_union_when_disjoint",
         "the number of iterations of the explicit-stack loop is existentially quantified in stack_force_denotes (the big-step fuel bound is the number of children cells)",
         "cancellation, progress counters, error-Status short cuts, meshIDs and refcount-driven destruction are not modelled (ctx = nullptr)",
-        "use_count answers fed to the model are inferred from the implementation's post-state (a node is 'unique' iff the implementation did not evaluate it); any answer is covered by the theorem",
+        "use_count answers used by the model are DERIVED from its own heap and live handles (extracted uniq_rc: no handle, at most one live children-vector entry, no live sharer of the children vector); they are compared with what the implementation did wherever that is observable, and the resulting node graphs must coincide",
+        "Status: the main stream uses one error code per expression (exact Status compared); with two different codes the reported code depends on the history on the pinned tree (finding status-code-depends-on-history, Coq: status_code_refuted)",
     ]
     cx.prove()
     if cx.replay_mode:
@@ -522,6 +609,7 @@ def run(cx):
     drv = vp.ocaml_build("c03_driver", mls + [os.path.join(vp.ROOT, "extract/c03_driver.ml")])
     exe = vp.build_harness("c03_csg", "seq", link_lib=True)
 
+    status_witness(cx, exe, drv, kmax or 1000)
     rng = random.Random(cx.seed * 104729 + 3)
     total = {"cases": 0, "forces": 0, "nontrivial": set(), "dist": {}, "mism": 0, "c02": 0, "alts": 0, "collapses": 0, "shared": 0}
     rounds = [cx.pick(500, 20000)]
@@ -543,6 +631,8 @@ def run(cx):
         "traces_validated_against_impl": total["forces"] - total["mism"],
         "oracle_irrelevance_runs": total["alts"], "collapse_decisions": total["collapses"], "shared_cell_observations": total["shared"],
         "c02_family_mismatches_same_in_all_orders": total["c02"],
+        "use_count_questions_on_observable_nodes": total.get("uq_total", 0),
+        "use_count_answers_derived_equal_inferred": total.get("uq_agree", 0),
     })
 
 
@@ -565,6 +655,36 @@ def replay(cx):
     for k in sorted(MR):
         if k in R and (R[k].split()[-1] != MR[k].split()[-1] or S.get(k) != MS.get(k)):
             cx.violation("replayed-case-differs", "implementation and model differ at %s op %d" % k, {"lines": lines})
+
+
+WITNESS = [
+    "CASE W.lazy 0 3 0 3 0 3 | E 1 1 | E 2 10 | L 6 7 9 134 135 137 | B 2 0 1 | B 2 3 2 | D 3 | F 4 0",
+    "CASE W.eager 0 3 0 3 0 3 | E 1 1 | E 2 10 | L 6 7 9 134 135 137 | B 2 0 1 | F 3 0 | B 2 3 2 | D 3 | F 4 0",
+]
+
+
+def status_witness(cx, exe, drv, kmax):
+    """Properties_C03.status_code_refuted replayed on the real code: r = (e1 ^ e2) ^ c with two DIFFERENT error codes,
+    forced lazily (the temporary e1^e2 collapses into r, BatchBoolean reorders the operands) and eagerly."""
+    rc, out, err = vp.sh2([exe], input="\n".join(WITNESS) + "\n", timeout=300)
+    R, S, X, _ = parse_out(out)
+    ml = [l + " # " + cached_sets(S, l.split()[1]) for l in WITNESS]
+    rc2, out2, err2 = vp.sh2([drv, str(kmax)], input="\n".join(ml) + "\n", timeout=300)
+    MR, MS, MX, _ = parse_out(out2)
+    impl = {k[0]: v.split()[0] for k, v in R.items() if (k[0], k[1]) in (("W.lazy", 6), ("W.eager", 7))}
+    model = {k[0]: v.split()[0] for k, v in MR.items() if (k[0], k[1]) in (("W.lazy", 6), ("W.eager", 7))}
+    cx.cov["status_witness"] = {"impl": impl, "model": model, "coq": "status_code_refuted: lazy 10, eager 1"}
+    if len(impl) != 2 or X:
+        cx.broke("corr:C03/status-witness", "the status witness did not run: %s %s" % (impl, list(X.values())[:1]))
+        return
+    if impl != model:
+        cx.broke("corr:C03/status-witness-model", "model and implementation report different Status codes on the witness: impl=%s model=%s" % (impl, model))
+    if impl["W.lazy"] != impl["W.eager"]:
+        cx.violation("status-code-depends-on-history",
+                     "r = (e1 ^ e2) ^ c with e1 = NaN-vertex mesh (Status 1), e2 = mesh with a wrong faceID length (Status 10): r.Status() is %s "
+                     "when r is forced lazily (the temporary e1^e2 collapses into r and BatchBoolean pops c, e2 first) and %s when e1^e2 is "
+                     "forced first; which error code is reported depends on the forcing history (error-ness does not)" % (impl["W.lazy"], impl["W.eager"]),
+                     {"lines": WITNESS, "impl": impl, "model": model})
 
 
 def check_round(cx, rng, ndags, exe, drv, kmax, total):
@@ -604,7 +724,7 @@ def check_round(cx, rng, ndags, exe, drv, kmax, total):
                     cx.broke("corr:C03/no-output#%s" % cid, "implementation printed nothing for op %d" % j)
                     continue
                 st, ntri, vol, inex, hx = ri.split()
-                ehex, evol = c["exp"][j]
+                ehex, evol, est = c["exp"][j]
                 if inex == "2":
                     # a sample point fell exactly on a projected triangle edge: the bitmap is not trustworthy, skip this observation
                     total["dist"]["degenerate_sample_skipped"] = total["dist"].get("degenerate_sample_skipped", 0) + 1
@@ -612,7 +732,7 @@ def check_round(cx, rng, ndags, exe, drv, kmax, total):
                 # inexact=1: some exported coordinate is off the 1/64 lattice by more than 1e-6 (a kernel artefact within
                 # tolerance): the volume is then compared with a relative tolerance instead of exactly
                 volok = int(vol) == evol if inex == "0" else abs(int(vol) - evol) <= 1e-6 * max(1, abs(evol))
-                good = (hx == ehex) and volok and st == "0"
+                good = (hx == ehex) and volok and st == str(est)
                 if v == c["root"]:
                     roots[c["variant"]] = (st, hx, vol if inex == "0" else "~", good)
                     if c["variant"] == "kernel":
@@ -622,15 +742,17 @@ def check_round(cx, rng, ndags, exe, drv, kmax, total):
                 if c["variant"] == "kernel":
                     continue
                 total["forces"] += 1
-                c.setdefault("bad", []).append((j, v, good, ri[:80], (ehex[:40], evol)))
+                c.setdefault("bad", []).append((j, v, good, ri[:80], (ehex[:40], evol, est)))
+                if est:
+                    total["dist"]["errored_values_forced"] = total["dist"].get("errored_values_forced", 0) + 1
                 # model side
                 mr = MR.get((cid, j))
                 if mr is None:
                     total["mism"] += 1
                     cx.broke("corr:C03/model#%s" % cid, "model undefined or silent at op %d: %s" % (j, MX.get(cid, "")))
                     continue
-                mn, mout, mhex = mr.split()
-                if mhex != ehex or mout != "0":
+                mst, mn, mout, mhex = mr.split()
+                if mhex != ehex or mout != "0" or mst != str(est):
                     total["mism"] += 1
                     cx.broke("corr:C03/model-vs-formula#%s" % cid, "extracted model's voxel set differs from the exact formula at op %d" % j)
                 ms, is_ = MS.get((cid, j)), S.get((cid, j))
@@ -640,6 +762,11 @@ def check_round(cx, rng, ndags, exe, drv, kmax, total):
                         cx.broke("corr:C03/shape#%s@%d" % (cid, j), "node graph after forcing differs: impl=[%s] model=[%s]" % (str(is_)[:300], str(ms)[:300]))
                 al = ALT.get((cid, j), "0 1 0").split()
                 total["alts"] += int(al[1])
+                if len(al) > 4:
+                    total["uq_agree"] = total.get("uq_agree", 0) + int(al[3]); total["uq_total"] = total.get("uq_total", 0) + int(al[4])
+                    if al[3] != al[4] and good:
+                        cx.broke("corr:C03/use_count#%s@%d" % (cid, j), "use_count answers derived from the model heap (uniq_rc) differ from "
+                                 "what the implementation did on nodes that are observable afterwards (%s of %s agree)" % (al[3], al[4]))
                 if al[0] != al[1]:
                     cx.broke("corr:C03/oracle-irrelevance#%s@%d" % (cid, j), "model result depends on oracle answers / stack vs big-step (%s of %s agree)" % (al[0], al[1]))
                 info["collapse"] += int(al[2]) if len(al) > 2 else 0
